@@ -102,7 +102,11 @@ impl Stats {
         bump(&mut self.faults, "F2_freeze", s.freezes);
         bump(
             &mut self.faults,
-            "F3_injected_panic",
+            if matches!(cfg.panic, Some((crate::work::PanicSite::Consumer, _))) {
+                "F3b_caller_panics_holding_a_chunk"
+            } else {
+                "F3_injected_panic"
+            },
             rec.ledger.injected_panics as u64,
         );
         let partial = rec
